@@ -397,14 +397,17 @@ Proof. exact conn_ping_outcomes. Qed.
 Print Assumptions C07_ping_outcomes.
 
 (* The forced Close races of engine closerace (Model/CloseRace.v): on the whole domain of the
-   engine -- six scenario kinds, 0..3 other calls in flight, every one-byte error code, every
+   engine -- ten scenario kinds (V07: 6 .. 9 = a beginCall parked between its state check and its
+   registration, or between its registration and its re-check, while Close lands with an outbound /
+   an inbound / no call in flight: it fails locally with the closed-connection error, outcome 22,
+   and leaves no exchange), 0..3 other calls in flight, every one-byte error code, every
    position of the target in the completion order -- the model's observable EQUALS the
    specification written from the statement (a raced request is answered with exactly one
    declined frame while the connection is open; an accepted call's result, response or error,
    reaches the peer; a ping on a draining connection is answered; then Closed, signalled once),
    and the scenario only visits reachable states of the connection system. *)
 Theorem C07_closerace_spec : forall kind k code pos rest,
-  0 <= kind <= 5 -> 0 <= k <= 3 -> 0 <= code <= 255 -> 0 <= pos <= k ->
+  0 <= kind <= 9 -> 0 <= k <= 3 -> 0 <= code <= 255 -> 0 <= pos <= k ->
   run_closerace (kind :: k :: code :: pos :: rest) = spec_closerace kind k code.
 Proof. exact closerace_spec. Qed.
 Print Assumptions C07_closerace_spec.
@@ -650,3 +653,142 @@ Example C07_example_witnesses3_model :
      run (vstep false false) vinit (read_first_witness ++ [LRunC 1 0; LRunC 1 4; LRunC 1 0; LRunC 1 0]) = Some s /\
      chst (vsh s) = hCl /\ g_closed (vsh s) = 1 /\ conns (vsh s) = []).
 Proof. exact (conj serve_late_witness_model read_first_witness_model). Qed.
+
+(* ==== fourth strengthening (V07): the optional components a closing channel stops ============== *)
+From Verif Require Import Gen.GenC07Stop Model.C07CloseStop Proofs.C07CloseStopP Proofs.C07CloseStopGenP.
+
+(* Model/C07CloseStop.v: the channel system [cstep] extended with the idle sweeper (started flag,
+   ghost count of close(is.stopCh)), a ghost count of ch.mutable.l.Close() and a ghost count of
+   PANICS inside Channel.Close (close of a closed channel).  [xinit interval]: IdleCheckInterval.
+   Under EVERY interleaving of any number of Close calls (before, while and after the channel
+   drains) with connection moves, callbacks, new connections and Serve calls: no Close panics, no
+   thread ends with the panic outcome, and the run projects onto a run of the channel system, so
+   all C07_chan_* theorems hold of the channel with its optional components. *)
+Theorem C07_close_stop_no_panic : forall interval s, Reach xstep (xinit interval) s ->
+  x_panics s = 0 /\ Reach cstep cinit (xb s) /\
+  (forall n o, nth_error (cthr (xb s)) n = Some (CDone o) -> o <> oClosePanic).
+Proof. exact c07stop_no_panic. Qed.
+Print Assumptions C07_close_stop_no_panic.
+
+(* The sweeper's stop action runs AT MOST ONCE and exactly when it should: the poller is running
+   iff it is configured and no Close has passed its locked region (state below StartClose); from
+   then on it is stopped and its stopCh has been closed exactly once. *)
+Theorem C07_close_stop_once : forall interval s, Reach xstep (xinit interval) s ->
+  sw_started (xw s) = (0 <? interval) && negb (hSC <=? chst (csh (xb s))) /\
+  sw_closes (xw s) = (if (0 <? interval) && (hSC <=? chst (csh (xb s))) then 1 else 0) /\
+  0 <= sw_closes (xw s) <= 1.
+Proof. exact c07stop_once. Qed.
+Print Assumptions C07_close_stop_once.
+
+(* The locked region of Channel.Close, as one step of ANY variant: listener closes, sweeper, state
+   and the rest of the call are what [close_region] (tied to the source below) says; where Stop
+   panics the state is NOT raised and no connection is closed by that call. *)
+Theorem C07_close_stop_region_step : forall keep s tid arg,
+  nth_error (cthr (xb s)) tid = Some PCl1 ->
+  let sh := csh (xb s) in
+  let '(lcl, stops, st', cc) := close_region (lis sh) (zlen (conns sh)) (chst sh) in
+  match (if stops =? 0 then Some (xw s) else sweep_stop_v keep (xw s)) with
+  | None => exists s', xstep_v keep s (LRunC tid arg) = Some s' /\ x_panics s' = x_panics s + 1 /\
+                       csh (xb s') = sh /\ nth_error (cthr (xb s')) tid = Some (CDone oClosePanic)
+  | Some w' => exists s', xstep_v keep s (LRunC tid arg) = Some s' /\ x_panics s' = x_panics s /\
+                       xw s' = w' /\ x_lcloses s' = x_lcloses s + lcl /\ chst (csh (xb s')) = st' /\
+                       nth_error (cthr (xb s')) tid = Some (PCl2 (if (stops =? 0) || cc then [] else conns sh) cc)
+  end.
+Proof. exact c07stop_region_step. Qed.
+Print Assumptions C07_close_stop_region_step.
+
+(* The wrong variant (idleSweep.Stop does not clear is.started), as a refuted clause: one
+   connection, Close (StartClose), a second Close while the channel drains -- panic; the channel
+   stays in StartClose and the second Close never closes the connections. *)
+Theorem C07_close_stop_keep_started_refuted : exists s,
+  run (xstep_v true) (xinit 1) keep_started_witness = Some s /\
+  x_panics s = 1 /\ chst (csh (xb s)) = hSC /\ conns (csh (xb s)) = [0%nat] /\
+  nth_error (cthr (xb s)) 2 = Some (CDone oClosePanic).
+Proof. exact c07stop_keep_started_refuted. Qed.
+Print Assumptions C07_close_stop_keep_started_refuted.
+
+(* the same schedule on the model (no panic, stopCh closed once, the second Close goes on to close
+   the connections), and on the wrong variant with the DEFAULT options (invisible) *)
+Example C07_example_keep_started_model :
+  (exists s, run xstep (xinit 1) keep_started_witness = Some s /\ x_panics s = 0 /\ sw_closes (xw s) = 1 /\
+             nth_error (cthr (xb s)) 2 = Some (PCl2 [0%nat] false)) /\
+  (exists s, run (xstep_v true) (xinit 0) keep_started_witness = Some s /\ x_panics s = 0 /\ sw_closes (xw s) = 0).
+Proof. exact keep_started_witness_model. Qed.
+
+(* Engine c07closecfg, component observable (started, #close(stopCh), #panics at every observation):
+   the model's output EQUALS the specification written from the statement ("the sweeper runs until
+   the first Close, is stopped exactly once, no Close panics") on EVERY input: any interval, any
+   number of connections, any script of Close batches / connection moves / observations. *)
+Theorem C07_closestop_spec : forall c, run_c07closestop c = spec_c07closestop c.
+Proof. exact c07closestop_spec. Qed.
+Print Assumptions C07_closestop_spec.
+
+Theorem C07_closecfg_reachable : forall interval listening nconns,
+  Reach xstep (xinit interval) (xstart interval listening nconns).
+Proof. exact c07closecfg_reachable. Qed.
+Print Assumptions C07_closecfg_reachable.
+
+(* Connection.stopHealthCheck (Model/C07CloseStop.v part 2): any number of calls, from outside and
+   from the health-check goroutine itself, in any interleaving.  Health checks off: nothing behind
+   the first guard is touched; the goroutine never waits for its own exit; close(healthCheckDone)
+   at most once; a waiting caller has cancelled the context. *)
+Theorem C07_health_stop_safe : forall on s, Reach hstep (hinit on) s ->
+  (on = false -> forall n p, nth_error (hthr s) n = Some p -> p = HDone \/ p = HS1) /\
+  (forall n p, nth_error (hthr s) n = Some p -> p <> HGs3 /\ p <> HGs4) /\
+  0 <= h_exits (hsh s) <= 1 /\
+  (forall n, nth_error (hthr s) n = Some HS4 -> h_cancelled (hsh s) = true).
+Proof. exact c07hc_safe. Qed.
+Print Assumptions C07_health_stop_safe.
+
+(* ... and every call returns: no reachable state with an unfinished thread is stuck. *)
+Theorem C07_health_stop_progress : forall on s, Reach hstep (hinit on) s ->
+  (exists n p, nth_error (hthr s) n = Some p /\ p <> HDone) ->
+  exists l s', hstep s l = Some s'.
+Proof. exact c07hc_progress. Qed.
+Print Assumptions C07_health_stop_progress.
+
+Example C07_example_health_stop :
+  exists s, run hstep (hinit true)
+              [LHStop; LHRun 1 0; LHRun 0 1; LHRun 0 0; LHStop; LHRun 1 0; LHRun 2 0; LHRun 2 0;
+               LHRun 0 0; LHRun 0 0; LHRun 0 0] = Some s /\
+            hthr s = [HDone; HDone; HDone] /\ h_exits (hsh s) = 1 /\ h_cancelled (hsh s) = true.
+Proof. exact c07hc_example. Qed.
+
+(* TIE (Gen/GenC07Stop.v, regenerated from idle_sweep.go, health.go, channel.go, inbound.go,
+   outbound.go on every run): idleSweep.start and Stop, the two guards of stopHealthCheck, the locked
+   region of Channel.Close (early return before anything is stopped, l.Close() only with a listener,
+   Stop() exactly once and inside the closure, the state only raised) and the two admission
+   re-checks selected by their POSITION after the registration are the model's functions / steps. *)
+Theorem C07_decisions4_generated :
+  (forall w iv,
+     sweep_start iv w =
+       if c07SweepStartGuard (sw_started w) iv =? 1
+       then (let '(st', cl') := c07SweepStartSets (sw_started w) (sw_closes w) in mkSw st' cl')
+       else w) /\
+  (forall w, 0 <= sw_closes w <= 1 ->
+     sweep_stop w =
+       (let '(st', cl') := c07SweepStop (sw_started w) (sw_closes w) in
+        if 2 <=? cl' then None else Some (mkSw st' cl'))) /\
+  (forall e, hc_guard1 e = c07StopHealthGuard e) /\
+  (forall c, hc_guard2 c = c07StopHealthRest c) /\
+  (forall has_l n cur, close_region has_l n cur = c07CloseRegion has_l n cur) /\
+  (forall s n id,
+     tstep s n (PR3 id) = (if c07CallReqRecheckAt (st s) =? 1
+                           then Some (set_inb s (set_flag id (inb s)), PDone oDispatched id)
+                           else Some (s, PR4 id)) /\
+     tstep s n (PC3 id) = (if c07BeginCallRecheckAt (st s) =? 1
+                           then Some (set_outb s (set_flag id (outb s)), PDone oBegun id)
+                           else Some (s, PC4 id))).
+Proof. exact c07stop_generated. Qed.
+Print Assumptions C07_decisions4_generated.
+
+(* non-vacuity of the closerace kinds added in this pass: a beginCall parked between its state
+   check and its registration while Close lands on an idle connection (Closed), on a connection
+   with one outbound call in flight (InboundClosed), with two inbound calls in flight (StartClose) *)
+Example C07_example_closerace_outbound :
+  run_closerace [6; 0; 0; 0; 1] = [4; 1; 0; 0; 22; 0] /\
+  run_closerace [6; 1; 0; 0; 0] = [4; 1; 0; 0; 22; 0] /\
+  run_closerace [7; 2; 0; 0; 1] = [4; 1; 0; 0; 22; 0] /\
+  run_closerace [8; 0; 0; 0; 1] = [4; 1; 0; 0; 22; 0] /\
+  run_closerace [9; 1; 0; 0; 0] = [4; 1; 0; 0; 22; 0].
+Proof. vm_compute. repeat split. Qed.
